@@ -5,9 +5,9 @@ vf/asm_text.py flattens the structured spellings; miasmX assembles; C->S: T_C19.
 import json, random, collections
 from . import core, asmlib, asm_text
 
-DIMS = ['syn', 'rc', 'kc', 'sp', 'nb', 'isg', 'dsg', 'ord', 'dout', 'pct', 'st0']
+DIMS = ['syn', 'rc', 'kc', 'sp', 'nb', 'isg', 'dsg', 'ord', 'dout', 'pct', 'st0', 'dsp']
 PRES0 = {'syn': 'intel', 'rc': 'lower', 'kc': 'upper', 'sp': 'canon', 'nb': 'dec', 'isg': False, 'dsg': False,
-         'ord': 'bid', 'dout': False, 'pct': False, 'st0': 'paren'}
+         'ord': 'bid', 'dout': False, 'pct': False, 'st0': 'paren', 'dsp': 'one'}
 
 
 GROUP = dict([(m, 'alu') for m in ('add', 'or', 'adc', 'sbb', 'and', 'sub', 'xor', 'cmp', 'test')]
@@ -33,7 +33,7 @@ def act_shape(ins, act):
         return ''
     if d == 'kc':
         return ' '.join(sorted(set(['ptr%d' % m['sz'] for m in mems if m['sz']] + (['offset flat'] if any(o['k'] == 'imm' and o['sym'] for o in ops) else []))))
-    if d in ('dsg', 'ord', 'dout'):
+    if d in ('dsg', 'ord', 'dout', 'dsp'):
         return ' '.join(sorted(set(asmlib.op_shape(m)[asmlib.op_shape(m).index('['):] for m in mems)))
     if d == 'isg':
         sz = [{'r8': 8, 'r16': 16, 'r32': 32}.get(o.get('c'), 0) for o in ops if o['k'] == 'reg'] + [m['sz'] for m in mems]
